@@ -1,4 +1,5 @@
 //@host src/io_loop/mod.rs
+//@quick (generic sweep without wall-clock dependence: also runs in the quick tier, labelled bounded)
 // C12 bounded stand-in, end to end: every public operation of Channel, Queue, Exchange, Consumer, Delivery and Get is called through the
 // public API against an auto-answering in-memory broker, for every combination of its boolean options and with distinctive strings / numbers /
 // argument tables; the method frame the broker receives must be on the channel's id and equal, field by field, to the method the operation's
